@@ -195,8 +195,20 @@ func runC12(c *fw.Ctx) {
 	for i := 0; i < nops; i++ {
 		k := req[r.Intn(len(req))]
 		var e1, e2 error
+		if collapsed && r.Intn(4) == 0 {
+			// the source commits and collapses again between two mirrored operations
+			if b2, cerr := src.Commit(r.Intn(6)); cerr == nil {
+				_ = b2.Commit(true)
+				c.Tracef("source: commit")
+				c.Count("source_commits_between_mirrored_operations", 1)
+			}
+		}
 		if r.Intn(3) != 0 {
 			v, w := g.Value()
+			if e, live := m[string(k)]; live && r.Intn(3) == 0 {
+				v, w = g.SameWeightValue(e.W), e.W // other bytes, the same weight
+				c.Count("mirrored_same_weight_rewrites", 1)
+			}
 			c.Tracef("upd %s=%s", wl.KeyStr(k), v)
 			e1 = wl.Upd(src, k, v, w)
 			e2 = wl.Upd(part, k, v, w)
@@ -288,7 +300,7 @@ func init() {
 			return 19200
 		},
 		Run:    runC12,
-		Floors: map[string]int64{"imports": 18000, "mirrored_ops": 50000, "imports_above_parallel_threshold": 5000, "imports_from_collapsed_source": 5000, "shape:0": 1000, "shape:1": 1000, "shape:2": 1000, "shape:3": 1000, "imports_from_copyroot_view": 2000, "views_whose_origin_moved_on": 800, "re_exports_from_the_partial_trie": 5000, "sources_with_equal_entries": 2500, "huge_exports": 1},
+		Floors: map[string]int64{"imports": 18000, "mirrored_ops": 50000, "imports_above_parallel_threshold": 5000, "imports_from_collapsed_source": 5000, "shape:0": 1000, "shape:1": 1000, "shape:2": 1000, "shape:3": 1000, "imports_from_copyroot_view": 2000, "views_whose_origin_moved_on": 800, "re_exports_from_the_partial_trie": 5000, "sources_with_equal_entries": 2500, "mirrored_same_weight_rewrites": 5000, "source_commits_between_mirrored_operations": 5000, "huge_exports": 1},
 		Race:   true,
 		Assumptions: []string{
 			"in-memory sources have their hashes finalised through Root() before GetPath (the usage the package's own tests show)",
